@@ -126,17 +126,16 @@ Print Assumptions xml_eof_at_end.
 
 (* C11 well-formed documents.  [item] / [doc_ok] (Xml/WellFormed.v) is an inductive grammar of the XML 1.0
    subset of the property: processing instructions and the prolog with pseudo-attributes, DOCTYPE with
-   external id and internal subset (plain bytes, double-quoted literals that may contain '>' '[' ']',
-   bracketed subsets whose content may contain '>'), comments (any body without the three bytes - - >), CDATA sections
+   external id and internal subset (plain bytes, double- and single-quoted literals that may contain
+   '>' '[' ']' and the other quote, bracketed subsets whose content may contain '>' and such literals), comments (any body without the three bytes - - >), CDATA sections
    (any body without the three bytes ] ] >), start / empty-element / end tags with names, whitespace variations and
    single- or double-quoted attribute values (any bytes but the quote and NUL, the other quote and
    '>' '/>' '?>' included), maximal character data.  For every such document the lexer returns exactly
    one token per construct, with the prescribed type, the construct's bytes, Text() = name / content
    and AttrVal() = the quoted value with TAB/LF/CR read as space, and then io.EOF.
    PARTIAL: not covered by the grammar, because the code does not treat them as XML 1.0 does (see the
-   two refuted clauses below and KNOWN_FINDINGS): single-quoted DOCTYPE literals containing '>', a
-   double quote, '[' or ']', comments and PIs inside the internal subset containing ']' or a double
-   quote, and PI content that is not a
+   refuted clause below and KNOWN_FINDINGS): comments and PIs inside the internal subset containing ']'
+   or an unbalanced quote, and PI content that is not a
    list of pseudo-attributes.  Agreement with encoding/xml is checked by search only. *)
 Theorem xml_wellformed_tokens_partial :
   forall items, doc_ok items -> lexes (xml_init (render_doc items)) (expect_doc items) 1.
@@ -152,15 +151,14 @@ Theorem xml_wellformed_checked :
 Proof. exact xml_wellformed_checked_proof. Qed.
 Print Assumptions xml_wellformed_checked.
 
-(* Refuted reading "every well-formed DOCTYPE is one token": <!DOCTYPE a SYSTEM 'x>y'><a/> is lexed as
-   DOCTYPE [0,22) = <!DOCTYPE a SYSTEM 'x>   then Text y'>  then StartTag ... (only the double quote counts
-   as a quote inside DOCTYPE). *)
-Theorem xml_doctype_single_quote_refuted :
-  exists d, d = ex_doctype_squote /\
-    option_map (map (fun r => (fst (fst r), snd (fst r)))) (run 3 (xml_init d)) =
-    Some [(TDoctype, Some (0, 22)); (TText, Some (22, 25)); (TStartTag, Some (25, 27))].
-Proof. exact xml_doctype_single_quote_refuted_proof. Qed.
-Print Assumptions xml_doctype_single_quote_refuted.
+(* Formerly refuted (fixed in /repo by b994372): single-quoted DOCTYPE literals.  The old witness
+   <!DOCTYPE a SYSTEM 'x>y'><a/> is now a document of the grammar and lexes to one DOCTYPE token
+   (whole declaration, Text = the body), StartTag, StartTagCloseVoid, io.EOF. *)
+Theorem xml_doctype_single_quote :
+  render_doc ex_squote_items = ex_doctype_squote /\
+  lexes (xml_init ex_doctype_squote) (expect_doc ex_squote_items) 1.
+Proof. exact xml_doctype_single_quote_proof. Qed.
+Print Assumptions xml_doctype_single_quote.
 
 (* Refuted reading "every processing instruction is StartTagPI ... StartTagClosePI": in <?p a>b?><a/>
    the '>' is returned as StartTagClose and b?> as Text. *)
